@@ -1,2 +1,32 @@
-(* C07 -- placeholder *)
-Theorem C07_placeholder : True. Proof. exact I. Qed.
+(* C07 -- every connection attempt yields a well-formed, finite event sequence.  Statements only. *)
+From Coq Require Import List NArith Bool.
+From Model Require Import Conn.
+From Proofs Require Import ShapeFacts RunFacts.
+Import ListNotations.
+
+(* for every configuration, every application strategy (reacting to everything it has observed with sends, closes or by
+   abandoning the loop), every connect outcome and every environment script (handshake variants, frames, silence, EOF,
+   socket errors, arbitrary exceptions, selector failures, failing writes), the chronological event sequence is one of
+     [Connecting]                                         (the consumer left at Connecting)
+     [Connecting; ConnectFail]
+     Connecting :: Connected :: body                      (still running when the script ran out, or abandoned)
+     Connecting :: Connected :: body ++ [Disconnected g]
+   where body contains no Connecting / ConnectFail / Connected / Disconnected: the terminal event is unique and last *)
+Theorem C07_event_shape : forall cf app c0 cn steps, k_tr c0 = [] ->
+  run_shape (rev (evs (k_tr (run cf app c0 cn steps)))).
+Proof. exact run_event_shape. Qed.
+Print Assumptions C07_event_shape.
+
+(* termination: once the script contains an end of stream, a socket error, an exception on recv or a raising selector,
+   the loop is left through one of its exits (never "still waiting") *)
+Theorem C07_terminates : forall cf app steps c, existsb terminating steps = true ->
+  exists c' st, loop cf app steps c = finish app c' st.
+Proof. exact loop_terminates. Qed.
+Print Assumptions C07_terminates.
+
+(* Poll and Unresponsive are produced by _regular only, and _regular does nothing before Ready *)
+Theorem C07_no_housekeeping_before_ready : forall cf app c, k_ready c = false -> regular cf app c = (c, SOk).
+Proof. intros. unfold regular. rewrite H. reflexivity. Qed.
+
+Example C07_nonvacuous : run_shape [EvConnecting; EvConnected; EvReady None false; EvPoll; EvText []; EvDisconnected false].
+Proof. apply (ShEnded [EvReady None false; EvPoll; EvText []] false). repeat constructor. Qed.
